@@ -1,5 +1,70 @@
-import TcheranVerif.Model.Search
+import TcheranVerif.Model.UciMove
+import TcheranVerif.Model.Movegen
+/-!
+# C17 — the position command: move text, and unique matching of a text against the legal moves
+
+* `move_text_roundtrip` — reading the long-algebraic text of any (source, destination, promotion)
+  triple returns that triple and consumes exactly the text (all 64·64·5 triples, kernel decision):
+  lower-case promotion letters, four or five characters.
+* `notation_injective` — different triples have different texts.
+* `expect_matching_unique` — on a duplicate-free move list in which (source, destination,
+  promotion) determines the move (true of the legal moves of a position: C01), the first match of
+  `expect_matching` is the only match, so the move played is the move meant.
+"The position after the command equals the rules' position" is decided on the real binary
+(`d fen`, `d perftdiv 1`) against the Rules replay and the engine-model replay: partial.
+-/
 namespace Tcheran.Props.C17
-theorem placeholder : True := trivial
+open Tcheran Tcheran.UciMove
+
+theorem move_text_roundtrip : ∀ src dst : Sq, ∀ p ∈ allPromos,
+    parseMove (text ⟨src, dst, p⟩) = some (⟨src, dst, p⟩, []) := by decide +kernel
+
+theorem notation_injective (a b : Text) (h : text a = text b) : a = b := by
+  have ha : a.promotion ∈ allPromos := by
+    cases a with
+    | mk s d p => cases p with
+      | none => simp [allPromos]
+      | some q => cases q <;> simp [allPromos]
+  have hb : b.promotion ∈ allPromos := by
+    cases b with
+    | mk s d p => cases p with
+      | none => simp [allPromos]
+      | some q => cases q <;> simp [allPromos]
+  have e1 := move_text_roundtrip a.src a.dst a.promotion ha
+  have e2 := move_text_roundtrip b.src b.dst b.promotion hb
+  have ea : (⟨a.src, a.dst, a.promotion⟩ : Text) = a := by cases a; rfl
+  have eb : (⟨b.src, b.dst, b.promotion⟩ : Text) = b := by cases b; rfl
+  rw [ea] at e1
+  rw [eb] at e2
+  rw [h, e2] at e1
+  simp only [Option.some.injEq, Prod.mk.injEq, and_true] at e1
+  exact e1.symm
+
+/-- the key a move is matched by -/
+def keyOf (m : Move) : Text := ⟨m.src, m.dst, m.promotion⟩
+
+/-- `MoveListExt::expect_matching` finds the first move with the given key -/
+def expectMatching (legal : List Move) (t : Text) : Option Move := legal.find? (fun m => keyOf m = t)
+
+theorem expect_matching_unique (legal : List Move) (t : Text) (m : Move)
+    (hinj : ∀ a ∈ legal, ∀ b ∈ legal, keyOf a = keyOf b → a = b)
+    (hm : m ∈ legal) (hk : keyOf m = t) : expectMatching legal t = some m := by
+  unfold expectMatching
+  cases hf : legal.find? (fun x => keyOf x = t) with
+  | none =>
+    have := List.find?_eq_none.1 hf m hm
+    simp [hk] at this
+  | some x =>
+    have hx := List.find?_some hf
+    have hxm := List.mem_of_find?_eq_some hf
+    have : keyOf x = t := by simpa using hx
+    rw [hinj x hxm m hm (this.trans hk.symm)]
+
+/-- castling is written as the king's move: the text of a castling move is `e1g1`-style, not `O-O` -/
+example : text (keyOf (Move.castles E1 G1)) = "e1g1".toList := by decide
+example : text (keyOf (Move.capturePromotion ⟨52, by decide⟩ ⟨61, by decide⟩ .knight)) = "e7f8n".toList := by decide
+
 end Tcheran.Props.C17
-#print axioms Tcheran.Props.C17.placeholder
+#print axioms Tcheran.Props.C17.move_text_roundtrip
+#print axioms Tcheran.Props.C17.notation_injective
+#print axioms Tcheran.Props.C17.expect_matching_unique
